@@ -630,6 +630,18 @@ func c07Wiring(c *Ctx) {
 			nonNil++
 		}
 	}
+	// … and a success reported to the breaker is a backend that answered: the function returns nil only
+	// on paths that proxied the request.  A half-open trial that was answered without any backend being
+	// contacted ("no healthy backend") must not count towards success_threshold.
+	unproxied := 0
+	for _, t := range ts {
+		if t.Exit == ExitNormal && !t.Has("proxy") && len(t.Ret) == 1 && t.Ret[0].K == ANil {
+			unproxied++
+		}
+	}
+	c.Check(unproxied == 0, "success-means-backend-answered", construct, p.InstrPos(site),
+		"every path that reports success to the breaker has proxied the request",
+		fmt.Sprintf("%d path(s) of the function handed to Execute return nil without having proxied the request (the 503 \"no healthy backend\" answer): in half-open state such a request spends a trial and counts as a trial success, so with every backend ejected the breaker closes after success_threshold requests that contacted no backend at all", unproxied))
 	c.Check(nonNil > 0, rule, construct, p.InstrPos(site),
 		fmt.Sprintf("%d of %d paths through the proxied call return a possibly non-nil error to the breaker", nonNil, len(ts)),
 		"every path of the function handed to Execute returns the constant nil after proxying: 5xx and unreachable backends are never counted as failures, so the breaker can only trip on panics",
